@@ -196,15 +196,24 @@ func (f GitBranchFinder) Find(allEntries []Entry) (entries []Entry, err error) {
 	}
 
 	var found bool
+	// Each entry found by the glob finder can only be updated once, entries without
+	// a rule (path errors) all look the same to IsSame().
+	matched := make([]bool, len(allEntries))
 	for _, entry := range entries {
 		found = false
 		if entry.State == Removed {
 			goto NEXT
 		}
 		for i, globEntry := range allEntries {
+			if i < len(matched) && matched[i] {
+				continue
+			}
 			if entry.Path.Name == globEntry.Path.Name && entry.Rule.IsSame(globEntry.Rule) {
 				allEntries[i].State = entry.State
 				allEntries[i].ModifiedLines = entry.ModifiedLines
+				if i < len(matched) {
+					matched[i] = true
+				}
 				found = true
 				break
 			}
